@@ -27,6 +27,7 @@ def run_dropout(p, hist):
     training = True
     viols = []
     conv = None
+    pending = []          # (x, y, keep, prefix): differentiated only after the whole history ran (mask of THAT forward)
     for i, e in enumerate(hist):
         prefix = hist[: i + 1]
         def v(kind, detail): viols.append((kind, detail, prefix))
@@ -65,6 +66,10 @@ def run_dropout(p, hist):
                     else:
                         if len(ok) == 1 and 0 < p < 1: conv = next(iter(ok))
                         keep = cands[sorted(ok)[0]]
+                        x2 = sg.Tensor(X3.copy(), requires_grad=True)
+                        with randsrc.controlled(u=u):
+                            y2 = L(x2)
+                        pending.append((x2, y2, keep, prefix))
                         try:
                             y.backward(sg.Tensor(G3.copy()))
                             gexp = G3 * np.array(keep) / (1 - p) if p < 1 else np.zeros(3)
@@ -80,6 +85,17 @@ def run_dropout(p, hist):
                         if not any(np.isclose(yd[j], o, rtol=1e-14, atol=0) for o in ok):
                             v("dropout:training-output", f"boundary u=p={p}: element {j} = {yd[j]}")
         if viols: return viols, i + 1
+    for (x2, y2, keep, prefix) in pending:
+        try:
+            y2.backward(sg.Tensor(G3.copy()))
+            gexp = G3 * np.array(keep) / (1 - p) if p < 1 else np.zeros(3)
+            gd = np.asarray(x2.grad.data, dtype=np.float64)
+            if not np.allclose(gd, gexp, rtol=1e-14, atol=0):
+                viols.append(("dropout:delayed-backward-mask", f"p={p}: the forward issued after {prefix} is differentiated after the whole history {hist}: gradient {gd}, "
+                              f"expected g * (the mask of that forward) / (1-p) = {gexp} (a later call of the layer disturbed the mask)", list(hist)))
+                break
+        except Exception as ex:
+            viols.append(("dropout:backward-raised", f"{type(ex).__name__}: {ex}", list(hist))); break
     return viols, len(hist)
 
 # ----------------------------------------------------------------------------- batch norm
